@@ -43,13 +43,13 @@ prop("C01", True, BOTH, BOTH,
      "with an independent rules-of-poker ordinal; quick uses 6 slot orders per hand, thorough all 120, so thorough closes the stated quantifier. "
      "The monitor also observes that all 7462 values are produced and how many cells of each lookup table were exercised (1287/1287/4888).",
      NOTE_ORACLE, "DESIGN.md section 5, C01")
-prop("C02", True, F, BOTH,
+prop("C02", True, BOTH, BOTH,
      "runtime reference-model monitor over all 20,358,520 six-card and all 133,784,560 seven-card subsets, plus a row-targeting workload for the slot tables",
      "Every 6- and 7-subset of the deck (canonical slot order) is ranked by the compiled crate and compared with a direct rule-based evaluation of the best hand; "
      "seeded slot orders, all four entry points on a seeded share, and for every class x every five-slot row a hand whose uniquely best sub-hand sits exactly in that row. "
      "Exhaustive in the subset dimension; other slot orders are sampled (stated limit).",
      NOTE_ORACLE, "DESIGN.md section 5, C02")
-prop("C03", True, F, BOTH,
+prop("C03", True, BOTH, BOTH,
      "runtime invariant monitor on the reported witness hand over all 5/6/7-card subsets (membership, distinctness, descending order, re-ranking)",
      "For every 6- and 7-subset the (value, hand) pair returned by the crate is checked: five distinct input cards, strictly descending words, re-ranking through the crate and "
      "through the rules oracle gives the reported value; for every five-card hand the reported hand is the input unchanged. Exhaustive over subsets; extra slot orders seeded.",
@@ -67,24 +67,24 @@ prop("C05", True, BOTH, MIRI,
      "blank fives must rank 0/Invalid. This is the check that found defect D1.",
      "Trusts catch_unwind/the watchdog to observe abnormal termination, and rustc on this target; the two profiles are the 'configurations' of the property.",
      "DESIGN.md section 5, C05")
-prop("C06", True, F, BOTH,
+prop("C06", True, BOTH, BOTH,
      "runtime reference-model monitor: all 65,536 values and all 2,598,960 hands, names derived from the rules key by the variant-name grammar",
      "HandRank::from is checked on every 16-bit value (value, category, class, Invalid exactly outside 1..=7462, self-consistency, helpers, default) against class names derived "
      "from the rules; the 309 classes must each cover one contiguous non-empty range; hand_rank()/hand_rank_validated() of every five-card hand and of seeded six/seven-card hands "
      "must name the category and class of the actual cards.",
      NOTE_ORACLE, "DESIGN.md section 5, C06")
-prop("C07", True, F, BOTH,
+prop("C07", True, BOTH, BOTH,
      "runtime order-law monitor over all 2^32 ordered pairs with an integer-key embedding that settles transitivity on all triples",
      "All 65,536 x 65,536 ordered pairs of converted ranks are compared: antisymmetry, Equal iff ==, stronger-is-greater, invalid-below-valid, partial_cmp and the four operators, "
      "and agreement with an integer key computed from the crate's own cmp (so the order is transitive on all 2^48 triples). The two enumerations are checked on all value pairs. "
      "Exhaustive. This is the check that found defect D2.",
      "Trusts only integer comparison and rustc on this target.", "DESIGN.md section 5, C07")
-prop("C08", True, F, BOTH,
+prop("C08", True, BOTH, BOTH,
      "runtime metamorphic monitor: model shift per slot, all 24 suit relabellings of every five-card hand, three shifts of every six-card and (thorough: every) seven-card hand",
      "shift_suit is compared slot-wise with the model shift on cards, blank and containers of every size; the value of every five-card hand must be unchanged under all 24 suit "
      "relabellings, and of every six-card hand and a seeded quarter (thorough: all) of the seven-card hands under the crate's three non-trivial shifts.",
      NOTE_LAYOUT, "DESIGN.md section 5, C08")
-prop("C09", True, F, BOTH,
+prop("C09", True, BOTH, BOTH,
      "runtime metamorphic monitor (no oracle): v7 vs its seven v6, v6 vs its six v5, sub-hands made by slot deletion",
      "For every six-card subset and a seeded quarter (thorough: all 133,784,560) of the seven-card subsets the larger hand's value must be <= every sub-hand's and equal to the minimum; "
      "half of the hands are presented in a seeded slot order. Independent of the oracle used by C01/C02, so it also guards against a shared blind spot.",
@@ -106,17 +106,17 @@ prop("C12", True, BOTH, MIRI,
      "characters with six tails, hand texts with 0..9 tokens for each Unicode white-space separator, and seeded texts go through from_index, get_rank_and_suit, five_from_index, the six "
      "TryFrom<&str> parsers and BinaryCard::from_index against two explicit symbol sets and the harness's own tokenizer. All strings is an infinite space: tails are sampled.",
      NOTE_MODEL, "DESIGN.md section 5, C12")
-prop("C13", True, F, BOTH,
+prop("C13", True, BOTH, BOTH,
      "runtime reference-model monitor: four predicates on all 2,598,960 hands vs suits/ranks by the rules and vs the ranked category",
      "is_flush / is_straight / is_straight_flush / is_wheel of every five-card hand (quick: two slot orders, thorough: all 120) are compared with the rules-based category and with "
      "hand_rank().name, and the deprecated free functions with the methods. Exhaustive. This is the check that found defect D3 (58,824 paired hands with a rank span of five).",
      NOTE_ORACLE, "DESIGN.md section 5, C13")
-prop("C14", True, F, BOTH,
+prop("C14", True, BOTH, BOTH,
      "runtime reference-model monitor: all 2^32 words word->bit, all 1/2(/3)-bit and seeded 64-bit values bit->word, 104 constants",
      "from_ckc is compared with 1<<(51-i) for card i / 0 otherwise on every 32-bit word; from_binary_card on every one- and two-bit value (three-bit in thorough), structured sets and "
      "seeded values of every population count; DECK and the 52 named bit constants against the deck order; round trips through the crate.",
      NOTE_LAYOUT, "DESIGN.md section 5, C14")
-prop("C15", True, F, BOTH,
+prop("C15", True, BOTH, BOTH,
      "runtime model-based history monitor: peel sequences to exhaustion vs bit arithmetic; set algebra on structured and seeded sets; hands and texts to sets",
      "Sets built from hands (all ordered hands of sizes 2-3, seeded hands with blanks, duplicates and near-miss words for 4-7) and from texts are compared with the OR of model bits; "
      "fold_in/has/count/single/valid with plain u64 arithmetic on a structured family pairwise and on seeded sets of every population count; every set is peeled to exhaustion plus "
@@ -132,18 +132,18 @@ prop("C17", True, BOTH, BOTH,
      "chen_formula and the six helpers are compared with an integer (half-point) implementation of Bill Chen's formula on every ordered pair of distinct cards, plus invariance under "
      "slot swap and suit shift and the per-card points of all 52 cards; the evidence lists how many pairs hit each arm (gap class x suited x below-queen). Exhaustive.",
      "Trusts the half-point oracle (self-checked on the published examples AA, AKs, AKo, TT, 7-5s, 22, 72o) and rustc on this target.", "DESIGN.md section 5, C17")
-prop("C18", True, F, BOTH,
+prop("C18", True, BOTH, BOTH,
      "runtime invariant check at a quiescent point on constant data: every table entry vs the set of combinations it should enumerate",
      "The deck (order, completeness, Deck::get in range and on every index class past the end), the six preset starting-hand tables (exact combination sets, no duplicates, higher rank "
      "first, AKs u AKo = AK) and the three slot-index tables (exactly C(4,2), C(6,5), C(7,5), rows increasing, no repeats) are checked entry by entry. Exhaustive for the tables.",
      NOTE_LAYOUT, "DESIGN.md section 5, C18")
-prop("C19", True, F, MIRI,
+prop("C19", True, BOTH, MIRI,
      "runtime history monitor against an array model, compared after every operation, unique words per history; all 6^5 and 7^5 selection tuples; Miri smoke leg",
      "Directed histories per size and constructor form and seeded 40-operation histories (set, rebuild through any constructor, copy-and-scribble, reconstruct) over Two..Seven are "
      "compared with a plain array after every step through all accessors, to_arr and iter; every one of the 27 setters, 27 accessors and 18 constructor forms must be observed; "
      "five_from_permutation is checked on every in-range index tuple. Histories are sampled, not enumerated.",
      NOTE_MODEL, "DESIGN.md section 5, C19")
-prop("C20", True, F, BOTH,
+prop("C20", True, BOTH, BOTH,
      "runtime reference-model monitor: 52 cards x all 121 mark sequences, accessors, strip, order vs all unmarked and marked words",
      "Every card under every sequence of up to four marks (every subset in every order, with repeats) must equal card | marks<<29, read back the same fields and characters, strip to "
      "the original and sort above every unmarked card with quads > trips > pair against all 52 x 7 other marked words. Exhaustive.",
